@@ -129,12 +129,6 @@ theorem shellSum_gt (E : ℝ) (co : ℕ → Option (ℝ × ℝ × ℝ)) :
         · exact absurd hh hc
         · exact ih es (sh + 1) acc h2 hh
 
-/-- smallest binding energy among the occupied shells of a row (scaled natural) -/
-def minBindN : List ℕ → List ℕ → Option ℕ
-  | n :: ns, en :: es =>
-    if 0 < n then (match minBindN ns es with | none => some en | some m => some (min en m)) else minBindN ns es
-  | _, _ => none
-
 theorem allAbove_of_le_min (E : ℝ) : ∀ (crow erow : List ℕ),
     (∀ m, minBindN crow erow = some m → E ≤ ofScaled m scEbind) → AllAbove E crow erow := by
   intro crow
